@@ -26,19 +26,21 @@ use std::collections::HashMap;
 pub static INFO: PropInfo = PropInfo {
     id: "C13",
     run,
-    rule: "inputs: the trees of C12 - (a) every expression tree of depth <= 2 over {0, 1, -1, 2, 0.5, 2i, pi, %x, %y, m[0]} (1.69 M trees, enumerated completely in both tiers), (b) random trees up to depth 6 over dyadic literals, pi, 4 variables and 5 memory cells in 4 regions - each with all its partial assignments (every variable bound/unbound x every region absent or of length 0..=max index+1) x every subset of bound variables substituted instead of bound; complete when <= 200 combinations, otherwise 200 sampled ones incl. the full and the empty assignment. distinct = distinct tree; non-trivial = the tree has at least one free name (variable or memory reference).",
+    rule: "inputs: the trees of C12 - (a) every expression tree of depth <= 2 over {0, 1, -1, 2, 0.5, 2i, pi, %x, %y, m[0]} (1.69 M trees, enumerated completely in both tiers), (b) random trees up to depth 6 over dyadic literals, pi, 4 variables and 5 memory cells in 4 regions, (c) random trees up to depth 5 whose variable names and region names are drawn from one shared pool {x, theta, m, q_1} with indices folded to 0..2, so that %theta, theta[0] and theta[2] meet in one expression - each with all its partial assignments (every variable bound/unbound x every region absent or of length 0..=max index+1) x every subset of bound variables substituted instead of bound; complete when <= 200 combinations, otherwise 200 sampled ones incl. the full and the empty assignment. Every substitution map additionally binds each region name of the expression that is not one of its variables (decoy keys: a region is not a variable whatever it is called). distinct = distinct tree; non-trivial = the tree has at least one free name (variable or memory reference).",
     assumptions: &[
         "memory_references() is compared as a set with the tree walk (multiset/order agreement is recorded, not asserted)",
         "only Ok-vs-Err of evaluate is asserted for incomplete assignments, not which EvaluationError is returned",
     ],
     exhaustive_quick: false,
     exhaustive_thorough: false,
-    exhaustive_note: "sub-space (a) (all trees of depth <= 2 over the 10-leaf alphabet, each with all its partial assignments) is enumerated completely; (b) is sampled",
+    exhaustive_note: "sub-space (a) (all trees of depth <= 2 over the 10-leaf alphabet, each with all its partial assignments) is enumerated completely; (b) and (c) are sampled",
     crash_is_violation: false,
     min_nontrivial: 100_000,
     required_counters: &[
         "workload:depth2-exhaustive",
         "workload:random-depth6",
+        "workload:colliding-names",
+        "substitute:decoy-key-named-like-a-region",
         "evaluate:ok-as-expected",
         "evaluate:incomplete-as-expected:variable-unbound",
         "evaluate:incomplete-as-expected:region-absent",
@@ -220,7 +222,7 @@ fn check_tree(ctx: &mut Ctx, tree: &Tree, env: &Env, workload: &str) {
         let mut sub_vars: HashMap<String, C> = HashMap::new();
         let mut subst: HashMap<String, Expression> = HashMap::new();
         for (k, v) in vars.iter().enumerate() {
-            let val = env.var(v).unwrap_or(C::new(0.77, 0.0));
+            let val = env.var(v).unwrap_or(C::new(0.77 + (hash_of(v) % 16) as f64 / 32.0, 0.0));
             match states[k] {
                 1 => {
                     direct_vars.insert(v.clone(), val);
@@ -233,10 +235,21 @@ fn check_tree(ctx: &mut Ctx, tree: &Tree, env: &Env, workload: &str) {
                 _ => {}
             }
         }
+        // decoys: the substitution map also binds every *region* name that is not one of the
+        // expression's variables; a variable that does not occur substitutes nothing, and a
+        // memory region is not a variable whatever it is called.
+        if !subst.is_empty() {
+            for (n, _) in &regions {
+                if !vars.contains(n) {
+                    subst.insert(n.clone(), Expression::Number(C::new(-41.5, 3.25)));
+                    ctx.count("substitute:decoy-key-named-like-a-region");
+                }
+            }
+        }
         let mut mem: HashMap<String, Vec<f64>> = HashMap::new();
         for (k, (n, _)) in regions.iter().enumerate() {
             if let Some(len) = part.lens[k] {
-                let full: Vec<f64> = (0..len).map(|j| env.cell(n, j as u64).unwrap_or(0.9 + 0.1 * j as f64)).collect();
+                let full: Vec<f64> = (0..len).map(|j| env.cell(n, j as u64).unwrap_or(0.9 + 0.1 * j as f64 + (hash_of(n) % 8) as f64 / 64.0)).collect();
                 mem.insert(n.clone(), full);
             }
         }
@@ -355,4 +368,42 @@ fn run(ctx: &mut Ctx) {
             return;
         }
     }
+    // (c) random trees whose variable names and memory-region names are drawn from one shared
+    // pool, so that `%theta`, `theta[0]` and `theta[3]` meet in one expression: variables and
+    // regions are separate name spaces for substitution, evaluation and reference listing.
+    let mut rng = ctx.rng(14);
+    let n = ctx.share(tier.pick(60_000, 4_000_000));
+    for _ in 0..n {
+        let depth = 1 + rng.below(5);
+        let tree = random_tree(&mut rng, depth, LeafProfile::Dyadic);
+        let tree = collide_names(&mut rng, &tree);
+        check_tree(ctx, &tree, &env, "workload:colliding-names");
+        if ctx.done() {
+            return;
+        }
+    }
+}
+
+fn collide_names(rng: &mut Rng, tree: &Tree) -> Tree {
+    const SHARED: [&str; 4] = ["x", "theta", "m", "q_1"];
+    let mut map: HashMap<String, String> = HashMap::new();
+    let zero_index = rng.chance(1, 2);
+    let mut pick = |rng: &mut Rng, kind: &str, n: &str| -> String {
+        map.entry(format!("{kind}:{n}")).or_insert_with(|| SHARED[rng.below(SHARED.len())].to_string()).clone()
+    };
+    fn go(t: &Tree, rng: &mut Rng, pick: &mut dyn FnMut(&mut Rng, &str, &str) -> String, zero_index: bool) -> Tree {
+        match t {
+            Tree::Var(n) => Tree::Var(pick(rng, "v", n)),
+            Tree::Mem(n, i) => Tree::Mem(pick(rng, "m", n), if zero_index { 0 } else { *i % 3 }),
+            Tree::Fun(f, a) => Tree::Fun(*f, Box::new(go(a, rng, pick, zero_index))),
+            Tree::Pre(o, a) => Tree::Pre(*o, Box::new(go(a, rng, pick, zero_index))),
+            Tree::Inf(l, o, r) => {
+                let l = go(l, rng, pick, zero_index);
+                let r = go(r, rng, pick, zero_index);
+                Tree::Inf(Box::new(l), *o, Box::new(r))
+            }
+            other => other.clone(),
+        }
+    }
+    go(tree, rng, &mut pick, zero_index)
 }
